@@ -1,4 +1,5 @@
 Require Import FastZ.
-From Dashu Require Import Base.Prelude Float.RoundSpec Float.Contract Float.Model.
+From Dashu Require Import Base.Prelude Float.RoundSpec Float.Contract Float.Model Float.AddModel.
 Extraction "model.ml" check_contract dlen x_exp cmp_kx spec_round round_rat_at
-  repr_round ctx_mul ctx_sqr ctx_cubic repr_div round_fract round_ratio.
+  repr_round ctx_mul ctx_sqr ctx_cubic repr_div round_fract round_ratio
+  ctx_add_x ctx_sub_x ctx_add_x1 ctx_sub_x1 add_val_val_x add_val_ref_x add_ref_val_x add_ref_ref_x ctx_sqrt add_path approx_val.
